@@ -3,6 +3,7 @@ package main
 import (
 	"fmt"
 	"strings"
+	"unicode"
 )
 
 type rnd struct{ s uint64 }
@@ -34,7 +35,7 @@ func (r *rnd) pick(ss ...string) string { return ss[r.n(len(ss))] }
 
 var attrNames = []string{"a", "b", "c", "name", "count", "for", "if", "null", "true", "in", "x-y", "ünï", "a1", "_u", "type", "dynamic", "content"}
 var blockTypes = []string{"blk", "resource", "x", "for", "dynamic", "b-c", "Ω", "null", "a"}
-var labelPool = []string{"l", "", "a b", "quo\"te", "new\nline", "${x}", "%{y}", "ü", "back\\slash", "tab\there", "l2", "$$", "a${b}c", "l3"}
+var labelPool = []string{"l", "", "a b", "quo\"te", "new\nline", "${x}", "%{y}", "ü", "back\\slash", "tab\there", "l2", "$$", "a${b}c", "l3", "\U000E0001", "nul\x00l", "😀 emoji"}
 
 // labels whose literal text contains an escaped-looking template introducer
 // (known finding K1): generated rarely
@@ -162,7 +163,14 @@ func quoteLabel(s string) string {
 		case '\t':
 			b.WriteString(`\t`)
 		default:
-			b.WriteRune(c)
+			switch {
+			case unicode.IsPrint(c):
+				b.WriteRune(c)
+			case c < 0x10000:
+				fmt.Fprintf(&b, "\\u%04x", c)
+			default:
+				fmt.Fprintf(&b, "\\U%08x", c)
+			}
 		}
 	}
 	b.WriteByte('"')
@@ -253,7 +261,7 @@ func (in InitM) Source() string {
 
 // ---- values, traversals, raw recipes ----
 
-var strPool = []string{"", "plain", "with \"quotes\"", "back\\slash", "new\nline", "${interp}", "%{directive}", "$${escaped", "ünïcode ✓", "tab\t", "trailing$", "%", "$", "a${b}c%{d}e", "\r\n", "it's"}
+var strPool = []string{"", "plain", "with \"quotes\"", "back\\slash", "new\nline", "${interp}", "%{directive}", "$${escaped", "ünïcode ✓", "tab\t", "trailing$", "%", "$", "a${b}c%{d}e", "\r\n", "it's", "tag\U000E0001char", "\U0010FFFF", "zero\u200bwidth", "bell\a", "😀"}
 var keyPool = []string{"k", "a b", "for", "1x", "k2", "ü", "with.dot", "null"}
 
 func genV(r *rnd, d int) *V {
